@@ -19,9 +19,9 @@ CHECKS = {
          "Every truncation point, appended byte, structural byte value (all 255 alternatives) and payload byte fault of each seed encoding (<=160 bytes) is decoded by the real decoder and by a strict reference decoder; accept/reject and the decoded value must agree. Valid encodings with every non-minimal length form and unstructured bytes are added.",
          "Trusts the reference decoder (internal/ref/decode.go); faults are single-point (plus targeted multi-byte ones), seeds are small generated messages.",
          "DESIGN.md §5 C03"),
- "C07": ("fault_enumeration", "child-process isolation (ulimit -v, watchdog, progress file) + per-call runtime.MemStats.TotalAlloc monitor",
-         "Every (format, length-byte count, declared length, bytes present, nesting depth) mismatch combination, all single-point faults of seed encodings, long legitimate items, list chains and random bytes are decoded in worker processes; an escaped panic, a worker abort (OOM, stack overflow) or an allocation above 1 MiB + 2048*len is a violation.",
-         "The allocation bound's constants are chosen with ~4x headroom over the costliest legitimate construct measured; time complexity is not judged; inputs above 16 MiB are not generated.",
+ "C07": ("fault_enumeration", "child-process isolation (ulimit -v, watchdog, progress file) + per-call runtime.MemStats.TotalAlloc monitor + hook-H3/H4 logical step budgets + per-worker history monitors (retained heap over the batch, long runs in one process, concurrent batches)",
+         "Every (format, length-byte count, declared length, bytes present, nesting depth) mismatch combination, all single-point faults of seed encodings, long legitimate items, list chains and random bytes are decoded in worker processes; an escaped panic, a worker abort (OOM, stack overflow) an allocation above 1 MiB + 2048*len, more item steps than input bytes (hook H3) or more list walks than 100000 + 2*len^2 (hook H4) is a violation. The same bound is applied to histories: seven messages repeated thousands of times and 150000 pairwise different tiny messages in one worker, a hostile tail behind a legitimate prefix, short reads of whole frames, frames decoded at the same moment by eight goroutines; the live heap after two collections is compared before and after each batch.",
+         "The allocation bound's constants are chosen with ~4x headroom over the costliest legitimate construct measured; time is judged only through the logical step counters of hooks H3/H4; inputs above 16 MiB are not generated.",
          "DESIGN.md §5 C07"),
  "C13": ("exploration", "hook-H1 sweep of the header routine (exhaustive over all sizes in the thorough tier) + real items at every length-byte boundary and at the limit, decoded back",
          "The header routine is called for every (format, size) through a verif-tagged export and compared with the arithmetic statement of the header (thorough: all 1.36e8 points, exhaustive; quick: every 257th size plus all sizes within 300 bytes of each boundary); real items of all 14 formats are built at the 255|256, 65535|65536 and 16777215|+1 boundaries, encoded, and decoded back.",
@@ -75,8 +75,8 @@ CHECKS = {
          "Sequences of 2-4 accepted texts with every separator allowed after a terminator: the concatenation must be accepted, return the concatenation of the individual results (all observers, variable names verbatim) and the individual warnings shifted by each part's start position; variable names and ellipses are deliberately reused across parts.",
          "Parts never end in an unterminated comment.",
          "DESIGN.md §5 C19"),
- "C06": ("exploration", "child-process isolation (ulimit -v, watchdog, progress file) + in-worker assertions on every returned triple + hook-H2 logical step budgets + diagnostic-shape coverage signal",
-         "Systematic hostile inputs (duplicate variables under absurd sizes, every Unicode white-space code point in 12 positions, 150 hostile fragments in 12 structural positions, deep nesting), token soups, valid tagged sequences, mutations of valid texts and random bytes are parsed in worker processes; an escaped panic, a worker abort, a step count above a linear budget, messages returned together with errors, a valid sequence returned incomplete or out of order, or a malformed/out-of-input diagnostic position is a violation; inputs producing a new diagnostic shape seed two further mutation rounds.",
+ "C06": ("exploration", "child-process isolation (ulimit -v, watchdog, progress file) + in-worker assertions on every returned triple + hook-H2/H4 logical step budgets + diagnostic-shape coverage signal + per-worker history monitors (earlier result re-read, retained heap over the batch, concurrent batches)",
+         "Systematic hostile inputs (duplicate variables under absurd sizes, every Unicode white-space code point in 12 positions, 150 hostile fragments in 12 structural positions, deep nesting), token soups, valid tagged sequences, mutations of valid texts and random bytes are parsed in worker processes; an escaped panic, a worker abort, a step count above a linear budget, messages returned together with errors, a valid sequence returned incomplete or out of order, or a malformed/out-of-input diagnostic position is a violation; inputs producing a new diagnostic shape seed two further mutation rounds. Per worker process: the previous successful result is read again after the next call, the live heap after two collections is compared before and after the batch, one worker parses hundreds of sizeable inputs with fresh names in a row, and batches of eight texts are parsed at the same moment by eight goroutines and compared with the same calls made alone.",
          "Non-termination is decided on the hooked logical steps (loops that call none of the hooked functions only trip the wall-clock watchdog, which is reported as inconclusive); inputs above 1 MiB only for the nesting probe; time complexity is not judged.",
          "DESIGN.md §5 C06"),
  "C17": ("exploration", "Go race detector (-race build) over a multi-goroutine driver with a detector canary, plus per-call comparison with sequential results",
